@@ -17,7 +17,7 @@ from pathlib import Path
 from .. import docex, drive, pool, tlc, trace
 from ..common import NCPU, MachineryError, canon, log, scratch_root
 
-PLAIN = {"kind": "stmts", "ctx": [], "before": 0, "inner": False, "copies": 1, "rename": False, "after": False,
+PLAIN = {"kind": "stmts", "ctx": [], "before": 0, "guard": False, "inner": False, "copies": 1, "rename": False, "after": False,
          "sibling": "none", "loopOk": True}
 
 
@@ -174,7 +174,7 @@ def mirror(tr: dict) -> tuple[str, dict]:
 
 
 def emb_tag(e: dict) -> str:
-    return (f"ctx={'>'.join(e['ctx']) or 'module'} before={e['before']} inner={int(e['inner'])} copies={e['copies']} "
+    return (f"ctx={'>'.join(e['ctx']) or 'module'} before={e['before']}{'+guard' if e.get('guard') else ''} inner={int(e['inner'])} copies={e['copies']} "
             f"rename={int(e['rename'])} after={int(e['after'])} sibling={e['sibling']}")
 
 
@@ -217,6 +217,8 @@ def embeddings_for(ex: dict, cases: list[dict]) -> list[dict]:
         if ex.get("nomulti") and c["copies"] > 1:
             continue
         if ex["lang"] == "rust" and (c["rename"] or c["sibling"] != "none"):
+            continue
+        if c.get("guard") and ex["lang"] != "python":
             continue
         if ex["lang"] == "rust" and ex["kind"] != "fnbody" and any(f not in ("func", "class") for f in c["ctx"]):
             continue
